@@ -55,6 +55,7 @@ class Defs:
         self.assigns: Dict[str, List[Tuple[ast.expr, ast.stmt]]] = {}
         self.other_defs: Set[str] = set()  # loop targets, with-as, aug-assign, unpack...
         self.unpack: Dict[str, List[Tuple[ast.expr, int, ast.stmt]]] = {}
+        self._fill_cache: Dict[str, Optional[ast.expr]] = {}
         for node in own_nodes(fn.node):
             if isinstance(node, ast.Assign):
                 for tgt in node.targets:
@@ -99,8 +100,90 @@ class Defs:
             return None
         vals = self.assigns.get(name, [])
         if len(vals) == 1:
-            return vals[0][0]
+            synth = self.fill_loop(name, vals[0][0])
+            return synth if synth is not None else vals[0][0]
         return None
+
+    def fill_loop(self, name: str, init: ast.AST) -> Optional[ast.expr]:
+        """
+        ``xs = []`` / ``d = {}`` filled by exactly one loop whose body only skips
+        (``if c: continue``), logs and stores -> the equivalent comprehension.
+        """
+        is_list = (isinstance(init, ast.List) and not init.elts) or (isinstance(init, ast.Call) and isinstance(init.func, ast.Name) and init.func.id == "list" and not init.args)
+        is_dict = (isinstance(init, ast.Dict) and not init.keys) or (isinstance(init, ast.Call) and isinstance(init.func, ast.Name) and init.func.id in ("dict", "OrderedDict") and not init.args and not init.keywords)
+        if not (is_list or is_dict):
+            return None
+        if name in self._fill_cache:
+            return self._fill_cache[name]
+        self._fill_cache[name] = None
+        loops = []
+        other_mutation = False
+        for node in own_nodes(self.fn.node):
+            if isinstance(node, ast.For):
+                touches = False
+                for sub in ast.walk(node):
+                    if isinstance(sub, ast.Call) and isinstance(sub.func, ast.Attribute) and isinstance(sub.func.value, ast.Name) and sub.func.value.id == name and sub.func.attr in ("append", "extend", "insert", "pop", "remove", "clear", "update", "setdefault"):
+                        touches = True
+                    if isinstance(sub, ast.Subscript) and isinstance(sub.ctx, (ast.Store, ast.Del)) and isinstance(sub.value, ast.Name) and sub.value.id == name:
+                        touches = True
+                if touches and not any(isinstance(a, ast.For) and a is not node and any(n is node for n in ast.walk(a)) for a in loops):
+                    loops.append(node)
+        # mutations outside loops
+        for node in own_nodes(self.fn.node):
+            if isinstance(node, ast.Call) and isinstance(node.func, ast.Attribute) and isinstance(node.func.value, ast.Name) and node.func.value.id == name and node.func.attr in ("append", "extend", "insert", "pop", "remove", "clear", "update", "setdefault"):
+                if not any(any(n is node for n in ast.walk(l)) for l in loops):
+                    other_mutation = True
+        if len(loops) != 1 or other_mutation:
+            return None
+        loop = loops[0]
+        if loop.orelse or any(isinstance(n, (ast.Break, ast.Return, ast.For, ast.While)) for n in ast.walk(ast.Module(body=loop.body, type_ignores=[]))):
+            return None
+        conds: List[ast.expr] = []
+        store = None
+        body = list(loop.body)
+        while body:
+            st = body.pop(0)
+            if is_log_call(st):
+                continue
+            if isinstance(st, ast.If) and not st.orelse and len([x for x in st.body if not is_log_call(x)]) == 1 and isinstance([x for x in st.body if not is_log_call(x)][0], ast.Continue):
+                conds.append(ast.UnaryOp(ast.Not(), clone(st.test)))
+                continue
+            if isinstance(st, ast.If) and not st.orelse and not body:
+                conds.append(clone(st.test))
+                body = list(st.body)
+                continue
+            if store is None and isinstance(st, ast.Expr) and isinstance(st.value, ast.Call) and isinstance(st.value.func, ast.Attribute) and norm(st.value.func.value) == name and st.value.func.attr == "append" and len(st.value.args) == 1 and is_list:
+                store = ("list", st.value.args[0])
+                continue
+            if store is None and isinstance(st, ast.Assign) and len(st.targets) == 1 and isinstance(st.targets[0], ast.Subscript) and norm(st.targets[0].value) == name and is_dict:
+                store = ("dict", st.targets[0].slice, st.value)
+                continue
+            if isinstance(st, ast.Assign) and len(st.targets) == 1 and isinstance(st.targets[0], ast.Name) and store is None:
+                # a local computed inside the loop body before the store: keep it by substitution
+                local = st.targets[0].id
+                rest = body
+                val = st.value
+
+                class Sub(ast.NodeTransformer):
+                    def visit_Name(self, node: ast.Name) -> ast.AST:  # noqa: N802
+                        if node.id == local and isinstance(node.ctx, ast.Load):
+                            return clone(val)
+                        return node
+
+                body = [Sub().visit(clone(x)) for x in rest]
+                continue
+            return None
+        if store is None:
+            return None
+        gen = ast.comprehension(target=clone(loop.target), iter=clone(loop.iter), ifs=conds, is_async=0)
+        if store[0] == "list":
+            out: ast.expr = ast.ListComp(elt=clone(store[1]), generators=[gen])
+        else:
+            out = ast.DictComp(key=clone(store[1]), value=clone(store[2]), generators=[gen])
+        ast.copy_location(out, loop)
+        ast.fix_missing_locations(out)
+        self._fill_cache[name] = out
+        return out
 
     def single_stmt(self, name: str) -> Optional[ast.stmt]:
         if name in self.params or name in self.other_defs:
